@@ -87,13 +87,40 @@ def _invoke(fn, cwd):
     return Result(code, buf.getvalue(), exc)
 
 
-def run_check(cwd, paths, quiet=False, excludes=()):
-    """codelimit check [--exclude x]... [--quiet] paths...   with the working directory `cwd`."""
+def _entry(name, **kwargs):
+    """The command's entry function in codelimit.__main__ (what the console script calls after option parsing), or None
+    when it cannot be called with these keywords - the callers then wire the command up by hand, as before."""
+    import inspect
+
+    try:
+        import codelimit.__main__ as main
+    except Exception:  # noqa: BLE001 - e.g. an optional dependency of the CLI module is missing
+        return None
+    fn = getattr(main, name, None)
+    if not callable(fn):
+        return None
+    try:
+        inspect.signature(fn).bind(**kwargs)
+    except (TypeError, ValueError):
+        return None
+    # the entry point shells out to git to find a GitHub remote; temp trees have none, and the properties that need a
+    # repository set Configuration.repository themselves
+    if hasattr(main, "configure_github_repository"):
+        main.configure_github_repository = lambda path: None
+    return lambda: fn(**kwargs)
+
+
+def run_check(cwd, paths, quiet=False, excludes=(), entry=True):
+    """codelimit check [--exclude x]... [--quiet] paths...   with the working directory `cwd`: through the entry function
+    of codelimit.__main__ (option handling, configuration loading, logging set-up included)."""
     from codelimit.commands.check import check_command
     from codelimit.common.Configuration import Configuration
 
     def fn():
         reset_config()
+        call = _entry("check", paths=[Path(p) for p in paths], exclude=list(excludes) or None, quiet=quiet, verbose=False) if entry else None
+        if call is not None:
+            return call()
         if excludes:
             add_excludes(excludes)
         Configuration.load(Path("."))
@@ -102,14 +129,16 @@ def run_check(cwd, paths, quiet=False, excludes=()):
     return _invoke(fn, cwd)
 
 
-def run_scan(cwd, path=".", excludes=()):
-    """codelimit scan [--exclude x]... path     (configure_github_repository is skipped: it shells out to git and
-    only sets Configuration.repository, which the harness sets explicitly when a property needs it)."""
+def run_scan(cwd, path=".", excludes=(), entry=True):
+    """codelimit scan [--exclude x]... path     through the entry function of codelimit.__main__ (see _entry)."""
     from codelimit.commands.scan import scan_command
     from codelimit.common.Configuration import Configuration
 
     def fn():
         reset_config()
+        call = _entry("scan", path=Path(path), exclude=list(excludes) or None, verbose=False) if entry else None
+        if call is not None:
+            return call()
         if excludes:
             add_excludes(excludes)
         Configuration.load(Path(path))
@@ -118,26 +147,32 @@ def run_scan(cwd, path=".", excludes=()):
     return _invoke(fn, cwd)
 
 
-def run_report(cwd, path=".", fmt="text", diff=None):
+def run_report(cwd, path=".", fmt="text", diff=None, entry=True):
     from codelimit.commands.report import report_command
     from codelimit.common.Configuration import Configuration
     from codelimit.common.report.ReportFormat import ReportFormat
 
     def fn():
         reset_config()
+        call = _entry("report", path=Path(path), diff=Path(diff) if diff else None, fmt=ReportFormat(fmt)) if entry else None
+        if call is not None:
+            return call()
         Configuration.load(Path(path))
         report_command(Path(path), ReportFormat(fmt), Path(diff) if diff else None)
 
     return _invoke(fn, cwd)
 
 
-def run_findings(cwd, path=".", full=False, fmt="text"):
+def run_findings(cwd, path=".", full=False, fmt="text", entry=True):
     from codelimit.commands.findings import findings_command
     from codelimit.common.Configuration import Configuration
     from codelimit.common.report.ReportFormat import ReportFormat
 
     def fn():
         reset_config()
+        call = _entry("findings", path=Path(path), full=full, fmt=ReportFormat(fmt)) if entry else None
+        if call is not None:
+            return call()
         Configuration.load(Path(path))
         findings_command(Path(path), full, ReportFormat(fmt))
 
